@@ -152,9 +152,12 @@ def gen_ipc(rng):
 def gen_connect(rng, kind):
     ops, behs, script = [], [], []
     if kind == "t":
-        pool = ["Tl", "Tl", "Tc", "Tc"]
-        if rng.random() < 0.15:
+        pool = ["Tl", "Tl", "Tc", "Tc", "T6"]
+        r0 = rng.random()
+        if r0 < 0.15:
             ops.append("B")
+        elif r0 < 0.35:
+            ops.append("b")          # AF_INET socket first: T6 then fails in connect(2) itself
     else:
         pool = ["Pl", "Pm", "Po", "Pe", "Pn", "Q0l", "Q0m", "Q0o", "Q1o", "Q1l", "Q2l", "Q0z", "Q0e", "Q0n"]
     overlap = rng.random() < 0.12           # a second connect while one is pending
@@ -183,7 +186,7 @@ def gen_connect(rng, kind):
             elif r < 0.65:
                 script.append("e111")
             elif r < 0.75:
-                script.append(rng.choice(["e101", "e13", "e11"]))
+                script.append(rng.choice(["e101", "e13", "e11", "e99", "e24", "e97", "e22"]))
             elif r < 0.83:
                 script.append(rng.choice(["s24", "s0", "s23"]))
             else:
@@ -634,10 +637,12 @@ FIXED = {
             "i ; Mtudtudtudt Mtudtudtud R R N " + "Af T N " * 20 + "; ; ",
             "i ; " + "Mt R " * 9 + "F1 Mt R N Mu R N " + "Af " * 11 + "; ; ",   # growth allocation fails
             "i ; Mt R F1 Mu R N Md R N Af Af Af ; ; "],                    # first allocation fails
-    "con-t": ["t ; Tl R R C R ; ; ", "t ; Tc R R C R ; ; ", "t ; Tl C R R ; ; ", "t ; B Tl R R C R ; Tl ; ",
+    "con-t": ["t ; b T6 R T6 Tl R R C R ; ; ", "t ; Tl R Tc Tc R C R ; ; e101 e99 e24", "t ; Tl Tc R R ; Tc Tl ; s24 p s23",
+              "t ; Tl R R C R ; ; ", "t ; Tc R R C R ; ; ", "t ; Tl C R R ; ; ", "t ; B Tl R R C R ; Tl ; ",
               "t ; Tl Tl R R C R ; ; e4 e111"],
     "con-p": ["p ; Pl R Pm R Po R Pe R Pn R C R ; ; ", "p ; Q1o Q2l Q0z Q0e Q0o R C R ; ; ", "p ; Pm C R ; ; s24",
-              "p ; Q0l Q0m R R C R R ; ; "],                               # overwritten pending request
+              "p ; Q0l Q0m R R C R R ; ; ",                               # a second connect while one is pending
+              "p ; Pl Pm Po R R C R R ; ; ", "p ; Pl Pm Q0m C R R ; ; ", "p ; Pm Pl R Pl Pn Pe R R C R ; Pm Pl | | Pl ; "],
 }
 
 
